@@ -123,6 +123,7 @@ def run_property(pid, tier, seed):
         baseline = {}
     ctx = getattr(eng, "fn_ctx", {})
     by_fn_failed = {}
+    regressed = []
     canaries = [o for o in eng.obligations if o.kind == "canary"]
     for o in canaries:
         if o.result == "valid":
@@ -147,9 +148,9 @@ def run_property(pid, tier, seed):
                                "note": "no-failing-input-found: this obligation was discharged on the reference tree "
                                        f"(function source {b.get('sha')}) and is no longer discharged after the function changed ({cur_sha})"},
                               fh, indent=1)
-                f = driver.Finding(pid, ob.name, ob.clause, path, False, {"baseline": b})
-                findings.append(f)
-                by_fn_failed.setdefault(ob.fn, []).append(ob.name)
+                # a solver timeout is not a refutation: the obligation is handed to the bounded stand-ins of this property;
+                # it is reported only together with a failing input they find (see below)
+                regressed.append((ob, path, b))
                 continue
             undecided.append(ob)
         else:
@@ -178,6 +179,18 @@ def run_property(pid, tier, seed):
             if b.get("fault"):
                 faults.append(f"bounded check {b['name']}: {b['fault']}")
 
+    # obligations that were discharged on the reference tree and time out after the function changed: a violation only if the
+    # bounded stand-ins (the function's contract at run time, and the property's harness) produced a failing input
+    lost_proofs = []
+    if regressed:
+        bounded_failed = any(f.kind == "bounded" for f in findings)
+        for ob, path, b in regressed:
+            if bounded_failed:
+                findings.append(driver.Finding(pid, ob.name, ob.clause, path, False, {"baseline": b}))
+                by_fn_failed.setdefault(ob.fn, []).append(ob.name)
+            else:
+                lost_proofs.append(f"{ob.name}: discharged on the reference tree, solver timeout after the function changed; "
+                                   f"bounded stand-ins found no failing input (level of this function: bounded)")
     # ---- known findings
     reported = []
     known_lines = []
@@ -232,6 +245,7 @@ def run_property(pid, tier, seed):
         "structural_notes": drift_notes + [n for n in eng.notes][:10],
         "paths_not_verified": list(eng.unverified_paths),
         "undecided": [o.name for o in undecided],
+        "proofs_lost_after_change": lost_proofs,
         "known_findings": known_lines,
         "canary": canary,
         "path_canaries": {"checked": len(canaries), "refuted_or_unknown": sum(1 for o in canaries if o.result != "valid")},
@@ -266,14 +280,21 @@ def run_property(pid, tier, seed):
     for rep in fn_reports:
         if rep.status != "generated":
             print(f"  note: {rep.key}: {rep.status}: {rep.reason}")
+    for lp in lost_proofs:
+        print(f"  note: {lp}")
     if faults:
         for fl in faults:
             print("CHECKER-FAULT:", fl)
         return 3
     if reported:
+        shown = set()
         for f in reported:
             tail = "" if f.reproduced else " no-failing-input-found"
-            print(f"VIOLATION property={pid} replay={f.replay_path}{tail}")
+            line = f"VIOLATION property={pid} replay={f.replay_path}{tail}"
+            if line in shown:
+                continue
+            shown.add(line)
+            print(line)
             print(f"  obligation: {f.name}\n  clause: {f.what}")
         return 1
     if undecided:
